@@ -461,7 +461,7 @@ pub(crate) fn array_type_spec(p: &mut Parser<'_>, want_array_ref_type: bool) -> 
     } else {
         assert!(p.at(T![array]));
     }
-    p.bump_any();
+    p.expect(T![array]);
     p.expect(T!['[']);
     if !matches!(
         p.current(),
